@@ -1,5 +1,6 @@
 import DoitModel.Proofs.C05Mon
 import DoitModel.Proofs.C05Unmet
+import DoitModel.Proofs.RunAcct
 /-! # C05 — failures are contained and never recorded as success
 
 Property theorems only (model: `Model/Run.lean` + `Model/RunFail.lean`; invariants: `Proofs/Run*.lean`,
@@ -96,21 +97,28 @@ theorem C05_continue_complete_serial (inp : RunInput) (hc : inp.continue_ = true
   ⟨fun t ht => all_processed_serial hr hend hhalt ((reach_invF hr).st hc) t ht,
    fun _ h => unmet_has_failed_dep (reach_invU hr) (reach_invF hr) h⟩
 
-/-- (c) for every runner; not proved for the parallel runners yet: "exactly one terminal report for every closure
-    member" needs the `free_proc`/`proc_count` accounting invariant (same gap as `C02_all_processed_parallel_full`).
-    The monitor `monC05ContinueComplete` evaluates the full statement on every implementation trace. -/
-def C05_continue_complete_full : Prop :=
-  ∀ (inp : RunInput), inp.continue_ = true → ∀ s, (PReach inp s ∨ Reach inp s) → s.rpc = .halted → s.halt = .none →
+/-- (c), `MRunner` / `MThreadRunner`, full strength — every interleaving of any number of workers: with `--continue`,
+    when the main loop ends (`proc_count = 0`) without an internal error, every task in the closure of the selection has
+    exactly one terminal report — its normal one (executed / up-to-date / ignored / failed on its own account) unless it
+    depends on a task with a failure report, the only case in which it is reported `unmet`.  No hypothesis on `stop`:
+    with `--continue` a failure never sets `_stop_running` (`C05_continue_never_stops`), so `get_next_job` never
+    answers "nothing left" because of a failure; that the loop then leaves no closure member unprocessed is the
+    `free_proc` / `proc_count` accounting invariant of `Proofs/RunAcct.lean` (`C02_all_processed_parallel`). -/
+theorem C05_continue_complete_parallel (inp : RunInput) (hc : inp.continue_ = true) (s : Sys) (hr : PReach inp s)
+    (hend : s.rpc = .halted) (hhalt : s.halt = .none) :
     (∀ t, RunCl inp s t → s.events.countP (Ev.isTerminalOf t) = 1) ∧
-    (∀ t, Ev.failure t .unmet ∈ s.events → ∃ d k, DepOnE inp s.events t d ∧ Ev.failure d k ∈ s.events)
-
-/-- what is proved of `C05_continue_complete_full` for the parallel runners: `--continue` never sets `_stop_running`
-    (so `get_next_job` never answers "stop" because of a failure) and `unmet` is reported only below a failed task;
-    missing: that the main loop leaves no closure member unprocessed -/
-theorem C05_continue_complete_partial (inp : RunInput) (hc : inp.continue_ = true) (s : Sys) (hr : PReach inp s) :
-    s.stop = false ∧
     (∀ t, Ev.failure t .unmet ∈ s.events → ∃ d k, DepOnE inp s.events t d ∧ Ev.failure d k ∈ s.events) :=
-  ⟨(preach_invF hr).st hc, fun _ h => unmet_has_failed_dep (preach_invU hr) (preach_invF hr) h⟩
+  ⟨fun t ht => all_processed_parallel hr hend hhalt ((preach_invF hr).st hc) t ht,
+   fun _ h => unmet_has_failed_dep (preach_invU hr) (preach_invF hr) h⟩
+
+/-- (c) for every runner (the statement that used to be the placeholder `def C05_continue_complete_full`) -/
+theorem C05_continue_complete (inp : RunInput) (hc : inp.continue_ = true) (s : Sys)
+    (hr : PReach inp s ∨ Reach inp s) (hend : s.rpc = .halted) (hhalt : s.halt = .none) :
+    (∀ t, RunCl inp s t → s.events.countP (Ev.isTerminalOf t) = 1) ∧
+    (∀ t, Ev.failure t .unmet ∈ s.events → ∃ d k, DepOnE inp s.events t d ∧ Ev.failure d k ∈ s.events) := by
+  rcases hr with hr | hr
+  · exact C05_continue_complete_parallel inp hc s hr hend hhalt
+  · exact C05_continue_complete_serial inp hc s hr hend hhalt
 
 /-- (d) serial runner without `--continue`: no action starts after the first failure report (of any kind) -/
 theorem C05_serial_stops (inp : RunInput) (hc : inp.continue_ = false) (s : Sys) (hr : Reach inp s)
@@ -192,9 +200,10 @@ example : ∃ s, Reach exFail s ∧ s.rpc = .halted ∧ s.halt = .none ∧
     s.events.contains (Ev.success 5) = true ∧ s.events.contains (Ev.success 3) = true :=
   ⟨_, autoRun_reach (by decide) false false 600 _ Reach.init, by decide +kernel⟩
 
-/-- the same under two worker threads -/
-example : ∃ s, PReach { exFail with runner := .thread, numProc := 2 } s ∧ s.rpc = .halted ∧
+/-- the same under two worker threads: the hypotheses of `C05_continue_complete_parallel` are met by a real run -/
+example : ∃ s, PReach { exFail with runner := .thread, numProc := 2 } s ∧ s.rpc = .halted ∧ s.halt = .none ∧
     s.events.contains (Ev.failure 0 .failed) = true ∧ s.events.contains (Ev.failure 4 .unmet) = true ∧
+    s.events.contains (Ev.failure 1 .unmet) = true ∧ s.events.contains (Ev.failure 2 .unmet) = true ∧
     s.events.contains (Ev.success 5) = true :=
   ⟨_, autoRun_preach (by decide) false true 900 _ PReach.init, by decide +kernel⟩
 
